@@ -202,3 +202,64 @@ Print Assumptions C17_schema.
 Print Assumptions C17_unmixed.
 Print Assumptions C17_groups.
 Print Assumptions C17_oracle.
+
+(* ------------------------------------------------------------------ batch sizes n <= 0 *)
+(* The constructors accept any int.  uncompressedCollector.Add refuses with
+   "overfull" when len(samples) >= batchSize — always, for batchSize <= 0; the
+   streaming wrappers flush when count >= maxSamples (always: count stays 0), but
+   FlushCollector returns at once for an empty collector, then the wrapped
+   collector refuses.  So the six kinds behave alike (harness: histories "ar",
+   "aaf", "maar" with n = 0 and n = -1 for every kind).  Proofs: Proofs/UncNonpos.v.
+     np_res mc d   = RCount if a field count mc <> 0 is recorded and d's differs, else RFull
+     np_mc mc d    = the field count recorded after Add d (the first one wins; 0 = none)
+     np_answers    = np_res along a sequence of documents
+     obs_nothing b = b is: an Add answered RFull or RCount / Resolve without data /
+                     a successful (empty) flush / Info with SampleCount 0 / Reset / SetMetadata *)
+From FV.Proofs Require Import UncNonpos.
+
+Section C17_nonpositive.
+Variable deflate : bytes -> bytes.
+
+(* EVERY history (all seven operations, any fault schedule), all six kinds: the
+   writer is never called (log empty, fault schedule untouched), no Add is ever
+   accepted, nothing is ever pending, every Resolve fails, every flush is the
+   empty successful one *)
+Theorem C17_nonpositive_batch_run : forall k n fs ops, unc_kind k = true -> n <= 0 ->
+  let res := run deflate (init_state k n fs) ops in
+  snd (fst res) = mkWriter [] fs false /\
+  pend (fst (fst res)) = [] /\ c_resolve deflate (fst (fst res)) = None /\ snd (c_info (fst (fst res))) = 0 /\
+  Forall obs_nothing (snd res).
+Proof. exact (unc_nonpos_run deflate). Qed.
+
+(* one Add in any reachable state: the answer is the "full" refusal, or the
+   "count" refusal when a different field count is on record; it agrees with
+   C17_add_res's [uc_add_res]; the writer is untouched, nothing becomes pending,
+   the metadata stays; the only effect is that the field count is recorded (as in
+   uncompressedCollector.Add, which records it before refusing) *)
+Theorem C17_nonpositive_batch_add : forall k n c w d now, unc_kind k = true -> n <= 0 ->
+  reachable deflate k n (c, w) ->
+  exists u, coll_ucoll c = Some u /\ uc_batch u = n /\ uc_samples u = [] /\
+  uc_add_res u d = np_res (uc_mcount u) d /\
+  exists c', step deflate (c, w) (OAdd d now) = ((c', w), BAdd (np_res (uc_mcount u) d)) /\
+    pend c' = [] /\ cmeta c' = cmeta c /\ cmc c' = np_mc (uc_mcount u) d.
+Proof. exact (unc_nonpos_add deflate). Qed.
+
+(* all histories of Adds, closed form: the first document is refused as "full",
+   and so is every later one with the recorded number of top-level fields; the
+   others are refused as "count" *)
+Theorem C17_nonpositive_batch_adds : forall k n fs docs nows, unc_kind k = true -> n <= 0 ->
+  length nows = length docs ->
+  snd (run deflate (init_state k n fs) (add_ops docs nows)) = map BAdd (np_answers 0 docs).
+Proof. exact (unc_nonpos_adds deflate). Qed.
+
+Example C17_nonpositive_example :
+  snd (run deflate (init_state KSDynUncJ (-1) [FError]) (add_ops np_ex_docs [0; 0; 0] ++ [OResolve; OFlush; OInfo])) =
+    [BAdd RFull; BAdd RCount; BAdd RFull; BResolve None; BFlush true; BInfo 1 0] /\
+  np_answers 0 np_ex_docs = [RFull; RCount; RFull].
+Proof. exact (unc_nonpos_example deflate). Qed.
+
+End C17_nonpositive.
+
+Print Assumptions C17_nonpositive_batch_run.
+Print Assumptions C17_nonpositive_batch_add.
+Print Assumptions C17_nonpositive_batch_adds.
